@@ -151,7 +151,11 @@ def search(res, tier, seed, deep=False):
             back = cmod.ppf(c, *gfit)
             res.case(("censored", dry))
             above = data >= thr
-            okc = above & (c > 1e-12) & (c < 1 - 1e-12)
+            # a value within rounding error of the threshold may legitimately round-trip to just below it
+            # (gamma.ppf(gamma.cdf(x)) is x only up to rounding) and is then censored: excluded, counted
+            near = np.abs(data - thr) <= 1e-9 * max(1.0, abs(thr))
+            res.count("censored-at-threshold-skipped", int(near.sum()))
+            okc = above & ~near & (c > 1e-12) & (c < 1 - 1e-12)
             if np.any(back[~above] != 0):
                 report("censored-dry-not-zero", inp, None, "a value below the censoring threshold did not come back as exactly 0")
             if np.any(np.abs(back[okc] - data[okc]) > 1e-6 * np.maximum(1, data[okc])):
